@@ -458,6 +458,10 @@ func (fr *Frame) callFuncValue(site ssa.Instruction, c *ssa.CallCommon, fv Val, 
 	fc.oblige(st, "nil", fr.path, Ne(fv.T, IntLit(0)), fr.pos(site), "call of nil function value")
 	fc.note("callback " + pname + " in " + shortName(funcKey(fr.fn)) + ": " + spec.Text + " (assumed of every callback passed)")
 	rest := strings.TrimSpace(strings.TrimPrefix(spec.Text, pname))
+	restAll := rest
+	if strings.HasPrefix(rest, "maypanic") {
+		rest = strings.TrimSpace(strings.TrimPrefix(rest, "maypanic"))
+	}
 	// count the invocation
 	cnt := "calls_" + pname
 	n := fc.ghostInt(st, cnt)
@@ -491,6 +495,14 @@ func (fr *Frame) callFuncValue(site ssa.Instruction, c *ssa.CallCommon, fv Val, 
 		v := fc.freshVal("cbres", t)
 		fc.assume(st, fc.typeFacts(st, v, t))
 		res = append(res, v)
+	}
+	if strings.HasPrefix(restAll, "maypanic") {
+		// user code may panic: second outcome, handled by the nearest recovering frame
+		p := fc.sc.Fresh("panics", SBool)
+		ps := st.clone()
+		ps.reach = fc.sc.Define("reach", And(st.reach, p))
+		fr.panics = append(fr.panics, ps)
+		st.reach = fc.sc.Define("reach", And(st.reach, Not(p)))
 	}
 	return res
 }
@@ -678,8 +690,10 @@ func (fr *Frame) callBuiltin(site ssa.Instruction, b *ssa.Builtin, c *ssa.CallCo
 		st.reach = TFalse
 		return nil
 	case "recover":
-		if fr.recovered != nil {
-			return []Val{scalar(fr.recovered)}
+		for f := fr; f != nil; f = f.parent {
+			if f.recovered != nil {
+				return []Val{scalar(f.recovered)}
+			}
 		}
 		return []Val{scalar(NilIface)}
 	case "close":
